@@ -14,12 +14,14 @@ pub fn build_tree(t: &Value) -> Command {
     let mut c = Command::new(st(&t["name"])).hide(t["hide"] == true);
     for a in t["valiases"].as_array().unwrap() { c = c.visible_alias(st(a)); }
     if t["version"] == true { c = c.version("1.0"); }
+    if t["nohelpsub"] == true { c = c.disable_help_subcommand(true); }
     for (i, o) in t["opts"].as_array().unwrap().iter().enumerate() {
         let id = if !bytes_of(&o["long"]).is_empty() { st(&o["long"]) } else { format!("opt{i}") };
         let mut x = Arg::new(id);
         if let Some(ch) = st(&o["short"]).chars().next() { x = x.short(ch); }
         if !bytes_of(&o["long"]).is_empty() { x = x.long(st(&o["long"])); }
         for al in o["lvaliases"].as_array().unwrap() { x = x.visible_alias(st(al)); }
+        if o["global"] == true { x = x.global(true); }
         if o["takes"] == true {
             x = x.action(ArgAction::Set);
             if o["optional"] == true { x = x.num_args(0..=1); }
